@@ -3,7 +3,7 @@ import copy, json
 from .. import common, pool, pipefam
 
 RULE = ("histories of open/write/re-open on real scratch HDF5 files for 1-3 groups (prefixes); re-open configurations equal to the stored "
-        "ones or differing in length (+-1), in one element, or in order, for each of the gene, TE-name and window lists, incl. large "
+        "ones or differing in length (+-1), in one element, or in order, or equal to the layout of another group of the same file, for each of the gene, TE-name and window lists, incl. large "
         "windows differing by 1; after every open the group's datasets are digested (shape, dtype, bytes) before/after; non-trivial = "
         "a history with a write followed by at least one mismatching and one matching re-open; distinct = the history")
 PREFIXES = ["superfamily", "order", "other"]
@@ -51,8 +51,11 @@ def gen_history(r):
         x = r.random()
         if x < 0.25:
             ops.append(["write", p, v]); tags.append("write"); v += 1
-        elif x < 0.5:
+        elif x < 0.45:
             ops.append(["open", p, base[p]]); tags.append("same")
+        elif x < 0.6 and len(prefs) > 1:
+            q = r.choice([y for y in prefs if y != p])       # the layout of ANOTHER group of the same file
+            ops.append(["open", p, base[q]]); tags.append("other_group_layout")
         else:
             c, tag = mutate_cfg(r, base[p])
             ops.append(["open", p, c]); tags.append(tag)
